@@ -16,7 +16,7 @@
  * Sequential semantics: the counter updates are atomic RMWs in libstdc++; their thread-safety is libstdc++'s, not cocls'.
  *
  * Unit supplies (units.py `defines`):  CV_SP_POINTEE  C type of the pointee,  CV_SP_DISPOSE  its translated destructor,
- * and a type alias SCNT = std::__shared_count<(__gnu_cxx::_Lock_policy)2>.
+ * and a type alias SCNT = std::__shared_count<__gnu_cxx::_S_atomic> (the spelling of the debug info).
  * Allocating constructors (one per make_shared<T>(args...) instantiation) are defined by the spec with CV_SP_DEFINE_MAKE.
  * operator-> / operator* on an EMPTY shared_ptr are obligations: use CV_SP_DEFINE_ACCESS in the spec for each instantiation.
  * Trusted base. */
